@@ -579,6 +579,7 @@ pub const F_SOCKETKIND: &str = "C03-socket-prefix-tied-to-the-kind-of-rule";
 pub const F_RULEENTRY: &str = "C03-rule-level-group-entry-with-key-or-occurrence-rejected";
 pub const F_PARENFIRST: &str = "C03-parenthesised-type-first-in-a-group-entry-rejected";
 pub const F_MIRROR: &str = "C03-ast-does-not-mirror-the-derivation";
+pub const F_HEADTYPE: &str = "C03-type-valued-head-number-accepted-for-every-major-type";
 pub const F_TRAILS: &str = "C03-blank-accepted-before-the-closing-angle-of-a-head-number";
 
 /// a `$` that does not start a socket name the crate knows ($name, $$name), or an identifier with a run of separators
@@ -659,6 +660,7 @@ fn viol(kind: &str, text: &str, observed: String, expected: &str) -> Viol {
         None
       }
     }
+    "accepted-but-not-derivable" if ["#0.<", "#1.<", "#2.<", "#3.<", "#4.<", "#5.<", "#8.<", "#9.<"].iter().any(|p| text.contains(p)) => Some(F_HEADTYPE),
     "accepted-but-not-derivable" if text.contains("#6.<") || text.contains("#7.<") => Some(F_TRAILS),
     "ast-mirror" => Some(F_MIRROR),
     _ => None,
@@ -685,6 +687,8 @@ fn mutants(tier: Tier) -> Vec<String> {
       "",
       " \n",
       "a = #\nb = #6.<a>(int)\nc = #(int)\nd = h\"01\"\n",
+      "t = \"\\u{0000061}\" / \"\\u{00000000}\" / \"\\u{0}\" / \"\\u{10FFFF}\" / \"\\u0061\\ud83d\\ude00\"\n",
+      "u = #8 / #9.1 / #0.0x10 / #7.25 / #7.<u>\n",
     ]
     .iter()
     .map(|s| s.to_string()),
@@ -860,6 +864,64 @@ fn composition_mirror(tier: Tier, run: &mut Run) -> u64 {
   n
 }
 
+/// E. atom mirror: every type2 alternative of the ABNF spelled once with the node the derivation gives it, in four contexts
+fn atom_mirror(run: &mut Run) -> u64 {
+  let mut atoms: Vec<(String, String)> = vec![("#".into(), "anyhash".into())];
+  for n in 0..=9u8 {
+    if n != 6 {
+      atoms.push((format!("#{n}"), format!("major<{n}>")));
+      for (m, v) in [("0", "0"), ("25", "25"), ("0x10", "16")] {
+        atoms.push((format!("#{n}.{m}"), format!("major<{n}.{v}>")));
+      }
+    }
+  }
+  atoms.push(("#7.<n>".into(), "major<7.<n>>".into()));
+  let int = "type(type1(typename(ident<int>)))";
+  atoms.push(("#6.1(int)".into(), format!("tag<.1>({int})")));
+  atoms.push(("#6.0x10(int)".into(), format!("tag<.16>({int})")));
+  atoms.push(("#6.<n>(int)".into(), format!("tag<.<n>>({int})")));
+  atoms.push(("#6(int)".into(), format!("tag({int})")));
+  atoms.push(("#(int)".into(), format!("tag({int})")));
+  atoms.push(("~a".into(), "unwrap(ident<a>)".into()));
+  atoms.push(("&b".into(), "enum_ref(ident<b>)".into()));
+  atoms.push(("m<int>".into(), "typename(ident<m> gargs(garg(type1(typename(ident<int>)))))".into()));
+  atoms.push(("(int)".into(), format!("paren({int})")));
+  atoms.push(("$s".into(), "typename(ident<$s>)".into()));
+  let lib = "a = [1]\nb = (x: 1)\nn = 1\nm<t> = t\n$s /= 1\n";
+  let mut n = 0u64;
+  for ctx in ["r = @", "r = [@]", "r = {k: @}", "r = tstr / @"] {
+    // the context's own shape, taken from the placeholder atom 'bool'
+    let base = format!("{}\n{lib}", ctx.replace('@', "bool"));
+    let Ok(Ok(ast)) = catch(|| cddl::cddl_from_str(&base, false)) else { continue };
+    let bshape = crate::shape::cddl(&ast).shape();
+    let hole = "typename(ident<bool>)";
+    if bshape.matches(hole).count() != 1 {
+      continue;
+    }
+    for (sp, want) in &atoms {
+      let text = format!("{}\n{lib}", ctx.replace('@', sp));
+      let expected = bshape.replace(hole, want);
+      n += 1;
+      match catch(|| cddl::cddl_from_str(&text, false)) {
+        Ok(Ok(ast)) => {
+          let got = crate::shape::cddl(&ast).shape();
+          if got != expected {
+            run.viol(viol("ast-mirror", &text, format!("AST shape {}", crate::c06::first_diff(&expected, &got)), &format!("the node of the ABNF alternative: {want}")));
+          }
+        }
+        Ok(Err(e)) => {
+          let e = e.to_string();
+          if !semantic_rejection(&e) {
+            run.viol(viol("derivable-but-rejected", &text, format!("rejected: {}", trunc(&e)), "accepted: a type2 alternative of the ABNF"));
+          }
+        }
+        Err(p) => run.viol(Viol { kind: "panic".into(), case: json!({"cddl": text}), observed: p, expected: "Ok or Err".into(), finding: None }),
+      }
+    }
+  }
+  n
+}
+
 fn heads_of(ast: &cddl::ast::CDDL) -> Vec<Head> {
   use cddl::ast::Rule;
   ast
@@ -951,6 +1013,8 @@ pub fn run(tier: Tier) -> i32 {
   }
   let comp_n = composition_mirror(tier, &mut run);
   mirror_n += comp_n;
+  let atom_n = atom_mirror(&mut run);
+  mirror_n += atom_n;
   let (mut n, mut acc, mut dc) = (0, 0, 0);
   let mut kinds: BTreeMap<String, u64> = BTreeMap::new();
   for a in accs.into_iter().chain(accs2) {
@@ -971,6 +1035,7 @@ pub fn run(tier: Tier) -> i32 {
   run.set("texts_single_edit_mutants", json!(ms.len()));
   run.set("texts_rule_head_documents", json!(hd.len()));
   run.set("texts_group_compositions", json!(comp_n));
+  run.set("texts_atom_mirror", json!(atom_n));
   run.set("accepted_by_the_parser", json!(acc));
   run.set("dont_care_semantic_rejections", json!(dc));
   run.set("violations_by_kind", json!(kinds));
@@ -985,7 +1050,8 @@ pub fn run(tier: Tier) -> i32 {
      sockets x 3 generic-parameter lists x 7 assignment / body forms, singly and in ordered pairs): the AST lists the same rules in order with name, socket prefix, kind, assignment \
      operator and generic parameters. D: arrays, maps and '&( )' groups composed of 1-3 '//'-separated choices of 0-2 entries over an entry alphabet (4; thorough 7: plain type, bareword \
      key, occurrence + name, typed key, value key, cut, inline group): the AST shape equals the composition of the shapes the entries have on their own (one group choice per alternative, \
-     empty ones included)."
+     empty ones included). E: every type2 alternative ('#', '#n', '#n.m', '#7.<t>', the four tag forms, '~a', '&b', generic application, parenthesised type, socket) in four contexts: \
+     the AST node is the one the ABNF alternative denotes (major type and head number kept)."
   );
   run.finish()
 }
